@@ -1,11 +1,54 @@
 """C07 - unauthorized clients get no replication and only independent events; complete state on authorization."""
+import os
+import sys
+from common import VERIF
 from simcheck import sim_check
+
+sys.path.insert(0, os.path.join(VERIF, "gen"))
+import scripts as gen_scripts
+
+
+def premap_scripts(rng, tier):
+    """the documented way to map entities before enabling replication: a filled ClientEntityMap is inserted on a client that
+    is connected but not yet authorized.  Until it is authorized the client must get nothing but independent events; then the
+    complete state, landing on the pre-spawned entity."""
+    out = []
+    for i in range(20 if tier == "quick" else 600):
+        lines = ["cfg policy=%s auth=custom track=0 nclients=2 timeout=10000" % rng.choice(["all", "black"]), "start", "sframe 0 10", "connect 0 1200"]
+        if rng.random() < 0.7:
+            lines.append("authorize 0")
+        lines += ["connect 1 1200", "cop 1 prespawn 0", "cframe 1"]
+        lines.append("sop spawn 1 1 0=%d 1=%d" % (rng.randrange(50), rng.randrange(50)))
+        lines.append("sop premap 1 1 0")
+        seq = 0
+        for _ in range(rng.randrange(1, 5)):
+            if rng.random() < 0.5:
+                lines.append("sop mutate 1 0=%d" % rng.randrange(50))
+            if rng.random() < 0.4:
+                lines.append("sop spawn %d 1 0=%d" % (2 + seq, rng.randrange(50)))
+            for ty in ("SE0", "SEI", "SEU"):
+                if rng.random() < 0.5:
+                    seq += 1
+                    lines.append("sop ev %s %s %d" % (ty, rng.choice(["b", "d1", "x0"]), 100 + seq))
+            lines.append("sframe 1 16")
+            if rng.random() < 0.6:
+                for ch in (0, 1, 2, 3, 4, 5, 6):
+                    lines.append("deliver 1 s2c %d all" % ch)
+                lines.append("cframe 1")
+        lines.append("authorize 1")
+        lines.append("sframe 1 16")
+        meta = dict(connected=[0, 1] if "authorize 0" in lines else [1], events=True)
+        sf = len(lines)
+        lines += gen_scripts.settle_lines(meta)
+        out.append(("premap-%d" % i, lines, sf))
+    return out
 
 
 def run(tier, seed, replay):
     kws = [dict(auth="custom", events=True), dict(auth="proto", events=True, nclients=2), dict(auth="proto", events=True, nclients=3, weights=dict(session=0.6)),
            dict(auth="custom", policy="white", events=True), dict(auth="none", events=True), dict(auth="proto", nclients=2, sessions=True)]
-    return sim_check("C07", tier, seed, kws, n_quick=200, n_thorough=20000, oracle_props={"C07"},
+    return sim_check("C07", tier, seed, kws, n_quick=200, n_thorough=20000, oracle_props={"C07"}, impl_only_scripts=premap_scripts,
+                     impl_only_label="a filled ClientEntityMap inserted on a connected client before it is authorized (the documented pre-mapping), then events and replication traffic, then authorization",
                      rule_extra=", clients that are authorized late or never (custom authorization), server events of every kind emitted in arbitrary frames",
                      extra_assumptions=["all three authorization methods are exercised; under the default protocol check the moment of authorization is an oracle input of the model (taken from the observed run), "
                                         "the oracle checks that exactly the clients whose hash matches are authorized and that a mismatching client gets the notification together with a disconnect request; "
